@@ -342,7 +342,7 @@ class Backend(abc.ABC):
         # Keep track if coefficients are real or not
         are_coefficients_real = True
         for term, coef in qubit_operator.terms.items():
-            if state_prep_circuit.width < len(term):
+            if term and state_prep_circuit.width <= max(index for index, _ in term):
                 raise ValueError(f'Term {term} requires more qubits than the circuit contains ({state_prep_circuit.width})')
             if type(coef) in {complex, np.complex64, np.complex128}:
                 are_coefficients_real = False
@@ -404,7 +404,7 @@ class Backend(abc.ABC):
         # Keep track if coefficients are real or not
         are_coefficients_real = True
         for term, coef in qubit_operator.terms.items():
-            if state_prep_circuit.width < len(term):
+            if term and state_prep_circuit.width <= max(index for index, _ in term):
                 raise ValueError(f'Term {term} requires more qubits than the circuit contains ({state_prep_circuit.width})')
             if type(coef) in {complex, np.complex64, np.complex128}:
                 are_coefficients_real = False
